@@ -73,7 +73,8 @@ pub fn level(r: &mut Rng, avail: &[Level]) -> Level {
 }
 
 pub fn schedule(r: &mut Rng) -> Schedule {
-    let kind = match r.below(5) {
+    let kind = match r.below(7) {
+        5 | 6 => SchedKind::Pct { depth: r.below(4) as u8, horizon: 1 + r.below(600) as u32 },
         0 => SchedKind::Uniform,
         1 => SchedKind::Sticky { switch: 128 },
         2 => SchedKind::Sticky { switch: 26 },
@@ -123,6 +124,8 @@ pub fn faulty_script(r: &mut Rng) -> ReaderScript {
             steps.push(RStep::Err(r.below(8) as u8));
         } else if x < p_int + 5 {
             steps.push(RStep::Eof);
+        } else if x < p_int + 9 {
+            steps.push(RStep::Nest(read_chunk(r), 1 + r.below(70000) as u32));
         } else {
             steps.push(src.next().unwrap_or_else(|| RStep::Data(read_chunk(r))));
         }
@@ -304,7 +307,7 @@ pub fn adapter(r: &mut Rng, len: usize, mix: &AdapterMix) -> AbsorbVia {
     if mix.simjoin && x < 80 && len > KIB {
         return AbsorbVia::SimJoin(join_policy(r));
     }
-    if mix.rayon && x < 86 && len > KIB {
+    if mix.rayon && x < 86 {
         return AbsorbVia::Rayon { width: 1 + r.below(8) as u8 };
     }
     if mix.mmap && x < 89 {
@@ -445,6 +448,10 @@ pub fn c02(base_seed: u64, i: u64, g: &GenCtx) -> Plan {
                     }
                 }
                 tasks[ct].push(Op::Finalize { h: c, via: FinVia::Inherent });
+            } else if x == 10 && h > 0 && r.chance(1, 2) {
+                // re-seed an older hasher of this task from this one (clone_from keeps the destination object)
+                tasks[cur_t].push(Op::CloneFromH { src: h, dst: h - 1 });
+                tasks[cur_t].push(Op::Finalize { h: h - 1, via: FinVia::Inherent });
             } else if x == 8 {
                 tasks[cur_t].push(Op::ConcurrentFinalize { h, n: xof_len(&mut r) });
                 conc = true;
@@ -638,8 +645,16 @@ fn client_ops(r: &mut Rng, h: usize, data: &mut Vec<DataSpec>, slot: &mut usize,
     let mut ops = Vec::new();
     let use_offset = r.chance(1, 4);
     let mut budget = usize::MAX;
+    if !use_offset && r.chance(1, 10) {
+        // positioned, then moved back to the start before any input
+        ops.push(Op::SetOffset { h, off: valid_offset(r) });
+        ops.push(Op::SetOffset { h, off: 0 });
+    }
     if use_offset {
         let off = valid_offset(r);
+        if r.chance(1, 4) {
+            ops.push(Op::SetOffset { h, off: valid_offset(r) });
+        }
         ops.push(Op::SetOffset { h, off });
         let tz = (off / 1024).trailing_zeros().min(12);
         budget = 1024usize << tz;
@@ -701,9 +716,17 @@ pub fn c10(base_seed: u64, i: u64, g: &GenCtx) -> Plan {
         for c in 0..clients {
             let ops = client_ops(&mut r, h, &mut data, &mut slot, &mixa, false, max);
             tasks[t].extend(ops);
+            if h > 0 && r.chance(1, 6) {
+                // a scratch hasher re-seeded from another pool member, then both go on independently
+                tasks[t].push(Op::CloneFromH { src: h, dst: h - 1 });
+                tasks[t].push(Op::Count { h: h - 1 });
+                tasks[t].push(Op::Finalize { h: h - 1, via: FinVia::Inherent });
+                tasks[t].push(Op::FinalizeXof { h: h - 1, r: None, n: 70, via: FinVia::Inherent });
+            }
             if c + 1 < clients {
                 // reset() itself, or one of the trait methods that delegate to it
-                match r.below(6) {
+                match r.below(7) {
+                    6 => tasks[t].push(Op::FinalizeXof { h, r: None, n: xof_len(&mut r), via: FinVia::TraitResetInto }),
                     0 => tasks[t].push(Op::Reset { h, via: ResetVia::DigestReset }),
                     1 => tasks[t].push(Op::Finalize { h, via: FinVia::TraitReset }),
                     2 => tasks[t].push(Op::FinalizeXof { h, r: None, n: xof_len(&mut r), via: FinVia::TraitReset }),
@@ -832,10 +855,29 @@ pub fn c08(base_seed: u64, i: u64, g: &GenCtx) -> Plan {
                 }
                 if r.chance(1, 2) {
                     let more = 1 + r.usize_below(2500);
-                    ops.push(Op::Absorb { h, data: di, off, len: more.min(total - off), via: AbsorbVia::Update });
+                    // the continuation may itself go through the multithreaded entry point, however short it is
+                    let cvia = if r.chance(1, 3) { AbsorbVia::Rayon { width: *r.pick(&[1u8, 2, 4]) } } else if r.chance(1, 4) { AbsorbVia::SimJoin(join_policy(&mut r)) } else { AbsorbVia::Update };
+                    ops.push(Op::Absorb { h, data: di, off, len: more.min(total - off), via: cvia });
                     off += more.min(total - off);
                     ops.push(Op::Finalize { h, via: FinVia::Inherent });
                 }
+            }
+        }
+        if real_rayon && slot >= 1 {
+            // several hashers fed at once inside one pool
+            let n = 2 + r.usize_below(4);
+            let mut items = Vec::new();
+            for k in 0..n {
+                let h = slot;
+                slot += 1;
+                ops.push(Op::NewHasher { slot: h, mode: mode(&mut r, &mut data), via: NewVia::Inherent });
+                let len = split_len(&mut r, 16, 200) + k;
+                data.push(DataSpec::Random { seed: r.next(), len });
+                items.push((h, data.len() - 1, 0, len));
+            }
+            ops.push(Op::ParallelRayon { items: items.clone(), width: *r.pick(&[2u8, 3, 4, 8]) });
+            for (h, _, _, _) in items {
+                ops.push(Op::FinalizeXof { h, r: None, n: 70, via: FinVia::Inherent });
             }
         }
         tasks.push(TaskPlan { level: lvl, ops });
@@ -1030,7 +1072,10 @@ pub fn c09(base_seed: u64, i: u64, g: &GenCtx) -> Plan {
             let h = hslot;
             hslot += 1;
             tasks[w2].push(Op::NewHasher { slot: h, mode: m.clone(), via: NewVia::Inherent });
-            if sh.off > 0 || r.chance(1, 3) {
+            if r.chance(1, 8) {
+                tasks[w2].push(Op::SetOffset { h, off: valid_offset(&mut r) });
+                tasks[w2].push(Op::SetOffset { h, off: sh.off as u64 });
+            } else if sh.off > 0 || r.chance(1, 3) {
                 tasks[w2].push(Op::SetOffset { h, off: sh.off as u64 });
             }
             let mut o = sh.off;
@@ -1133,6 +1178,13 @@ pub fn c09_giant(base_seed: u64, i: u64, g: &GenCtx) -> Plan {
     let mixa = AdapterMix { io: true, rayon: false, simjoin: r.chance(1, 3), mmap: false, traits: false };
     // whole window as one subtree
     ops.push(Op::NewHasher { slot: 0, mode: m.clone(), via: NewVia::Inherent });
+    if r.chance(1, 3) {
+        // the offset may be set several times before the first byte: the last call wins
+        ops.push(Op::SetOffset { h: 0, off: valid_offset(&mut r) });
+        if r.chance(1, 3) {
+            ops.push(Op::SetOffset { h: 0, off: 0 });
+        }
+    }
     ops.push(Op::SetOffset { h: 0, off });
     let mut o = 0;
     for f in fragments(&mut r, len) {
@@ -1203,7 +1255,19 @@ pub fn c16_traits(base_seed: u64, i: u64, g: &GenCtx) -> Plan {
                 }
             }
             // a resetting variant, then the same hasher continues: the state left behind matters
-            match r.below(5) {
+            match r.below(7) {
+                5 => ops.push(Op::FinalizeXof { h, r: None, n: *r.pick(&[0usize, 1, 16, 31, 32, 33, 64, 100]), via: FinVia::TraitResetInto }),
+                6 => {
+                    // a hazmat offset, then a reset through the trait: the next round must start from scratch
+                    ops.push(Op::Reset { h, via: ResetVia::DigestReset });
+                    ops.push(Op::SetOffset { h, off: valid_offset(&mut r) });
+                    data.push(DataSpec::Random { seed: r.next(), len: 1 + r.usize_below(1024) });
+                    ops.push(Op::Absorb { h, data: data.len() - 1, off: 0, len: data[data.len() - 1].len(), via: AbsorbVia::TraitUpdate });
+                    let cv = slot;
+                    slot += 1;
+                    ops.push(Op::FinalizeNonRoot { h, cv });
+                    ops.push(Op::Reset { h, via: ResetVia::DigestReset });
+                }
                 0 => ops.push(Op::Finalize { h, via: FinVia::TraitReset }),
                 1 => {
                     let rs = slot;
@@ -1764,7 +1828,7 @@ pub fn c11_special(base_seed: u64, i: u64, _g: &GenCtx) -> Plan {
     let seed = mix(base_seed ^ 0x5EC1, i);
     let mut r = Rng::new(seed);
     // the large sysfs file is expensive: rarely
-    let kind = if r.chance(1, 40) { 4 } else { *r.pick(&[0u8, 1, 2, 3, 5, 6]) };
+    let kind = if r.chance(1, 40) { 4 } else { *r.pick(&[0u8, 1, 2, 3, 5, 6, 7, 7, 8]) };
     single("C11", "c11-special", seed, Cfg::default(), Vec::new(), Level::Detect, vec![Op::FileKinds { kind }])
 }
 
